@@ -14,6 +14,7 @@ import time
 
 VERIF = os.path.dirname(os.path.dirname(os.path.abspath(__file__)))
 REPO = os.environ.get('VERIF_REPO', '/repo')
+PARTIAL = False
 HOOK_PREFIX = '/verif/hooks/'          # path prefix written in /repo's cfg(kani) hook lines
 
 # hook file (relative to hooks/) -> (cargo package, module path of the hook module)
@@ -343,6 +344,8 @@ def load_known():
 # --------------------------------------------------------------------------- check
 
 def check(prop, tier, jobs, keep, only=None):
+    global PARTIAL
+    PARTIAL = bool(only)
     t0 = time.time()
     seed = int(os.environ.get('VERIF_SEED', '0') or 0)
     allh = scan_harnesses()
@@ -542,8 +545,10 @@ def write_evidence(prop, tier, seed, sel, results, build_info, violations, known
         'wall_s': round(wall, 1),
         'violations': len(violations),
     }
-    os.makedirs(os.path.join(VERIF, 'evidence'), exist_ok=True)
-    with open(os.path.join(VERIF, 'evidence', prop + '.json'), 'w') as fh:
+    # partial runs (--only) must never replace the evidence of a whole check
+    evdir = os.path.join(VERIF, 'evidence') if not PARTIAL else os.path.join('/tmp', 'rzxv-partial-evidence')
+    os.makedirs(evdir, exist_ok=True)
+    with open(os.path.join(evdir, prop + '.json'), 'w') as fh:
         json.dump(ev, fh, indent=1)
 
 
